@@ -1877,7 +1877,10 @@ def sort_slot_runs(out):
 
 def _slot_kind(l):
     if l.startswith(b"X "):
-        return b"X"
+        # the queries of one instance (same routing tag) that follow each other; queries of
+        # different instances are written in the order the instances were served
+        f = l.split(b" ", 3)
+        return (b"X", f[2] if len(f) > 2 else b"")
     if l.startswith(b"A xquery :"):
         return b"A"
     if l.startswith(b"S xquery : ") or l.startswith(b"S xquery :-"):
